@@ -38,14 +38,10 @@ def run(tier, seed, replay=None):
                      "parametric theorems (all N, all schedules) for when_all/when_all_range; stop_when and deadlock-freedom/result precedence per instance"],
         trusted_extra=["harness/evt/evt.cpp", "tools/evt.py", "g++ 12, ASan/UBSan", "harness/rt (cooperative scheduler, __tsan_* shim)", "Core/Admit.lean trace-inclusion test"],
         explanation="Theorems (Props/C01): root_at_most_once (any expression, any leaf script, ANY event sequence incl. nonsense events: at most one completion signal), "
-<<<<<<< HEAD
-                    "root_silent_before_start (no output and no signal before start / if never started), no_lost_completion (a running operation always has a pending leaf below it: coherence invariant Coh proved for every clause, Calc/Coh.lean), finishing_signals / start_finishing_signals (becoming finished = signalling), built on signal_finishes + finished_inert + idle_silent.")
-=======
-                    "root_silent_before_start (no output and no signal before start / if never started), built on signal_finishes + finished_inert + idle_silent for every algorithm clause. "
+                    "root_silent_before_start (no output and no signal before start / if never started), no_lost_completion (a running operation always has a pending leaf below it: coherence invariant Coh proved for every clause, Calc/Coh.lean), finishing_signals / start_finishing_signals (becoming finished = signalling), built on signal_finishes + finished_inert + idle_silent. "
                     "Props/C01_Atomic (when_all/when_all_range atomic protocol, ALL N >= 1, all configurations, all schedules, by invariant induction): deliver_at_most_once, elected_once, "
                     "refcount_counts_owners, deliver_only_after_all_children, deliver_happens, exactly_once_at_end, result_precedence (receiver-stop > first error/done > values), "
                     "no_result_before_signal; Props/C01_AtomicInst, instances by kernel reflection (safe = also deadlock-freedom of the blocking deregistrations): wa2_race, wa1_stop, "
                     "wa2_valinl_stop, wa3_fail_inl; Props/C01_AtomicSW: stop_when instances sw_race, sw_mix, "
                     "sw_trigger, sw_src_err (exactly once, after both children, result = source's). Scenarios wa2_stop, wa3_fail, war2_stop, sw_stop are tied to the same models (trace inclusion) "
                     "but too large for kernel reflection; for when_all they are covered by the parametric theorems.")
->>>>>>> wt_c0104
